@@ -25,7 +25,7 @@ Emit == pc = "end" =>
 
 GEN_Idx  == CfgsFor(1..30, 1..8, {"pmap"}, {0}, {"exact"}, Alphabet)
             \cup CfgsFor(0..30, 1..8, {"shard"}, {0}, {"exact"}, Alphabet)
-RunN     == {1, 2, 3, 5, 6, 8, 11}
+RunN     == {1, 3, 6, 8, 11}
 RunNT    == (1..17) \cup {20, 23, 27, 30}
 GEN_Run  == CfgsFor(RunN, 1..4, {"pmap"}, {0, 2}, {"exact"}, Alphabet)
             \cup CfgsFor(RunN \cup {0}, 1..4, {"shard"}, {0}, {"exact"}, Alphabet)
